@@ -61,7 +61,7 @@ deriving DecidableEq, Repr
 /-- what the room-definition event handler does with a live connection (regenerated from
     peer_inbound_service.rs) -/
 structure EventRule where
-  admit : AdmitTest
+  admitBy : AdmitTest
   /-- the handler has an else branch that takes the room away from the connection -/
   revokes : Bool
 deriving DecidableEq, Repr
@@ -292,7 +292,7 @@ def serve (d : Defects) (cd : Code) (w : World) (own : Key) (c : Conn) (q : Quer
 /-- the admission test of `process_local_event(RoomDefinitionChanged(room))` -/
 def admits (d : Defects) (ev : EventRule) (w : World) (room : Room) (k : Key) : Bool :=
   if d.hasUserCountsDisabled then room.hasUser k
-  else match ev.admit with
+  else match ev.admitBy with
     | .validNow => room.isUserValidAt k w.now
     | .hasUser => room.hasUser k
 
